@@ -16,9 +16,13 @@
    - hence the original - values.  Key lookups: props/C12.v.
    "Behaves like the original afterwards" follows: every theorem about commits applies to the
    restored collection, which satisfies the same invariants.
-   Byte level: the state stream's framing is L1 (Wire.v); s2 is trusted. *)
+   Byte level ([c07_file_round_trip]): the state stream exactly as writeState lays it out
+   (WireState.v) followed by the recorded commits, inside the s2 framing (S2Frame.v; the block
+   compressor is an arbitrary function of each chunk), is read back by the model of
+   Restore's readers as exactly the state and commits that were written. *)
 From stdpp Require Import gmap.
 From ColumnV Require Import Bytes Store StoreProofs StoreProofs4 Check.
+From ColumnV Require Wire WireCommit WireState S2Frame.
 
 Theorem c07_restore_snapshot : ∀ s,
   CellsLive s → CastFixed s →
@@ -43,3 +47,16 @@ Example c07_example :
   let s := commit s0 t in
   dump (restore (fresh_of s) (snapshot s)) = dump s ∧ dump s ≠ [].
 Proof. vm_compute. split; [done|discriminate]. Qed.
+
+Theorem c07_file_round_trip : ∀ body_dec (st : WireState.state) (cs : list WireCommit.commit) (chunks : list S2Frame.wchunk),
+  WireState.state_ok st → Forall WireCommit.commit_ok cs →
+  Forall (S2Frame.chunk_ok body_dec) chunks → S2Frame.starts_ok false chunks →
+  S2Frame.payloads body_dec chunks = WireState.state_enc st ++ Wire.log_bytes WireCommit.commit_enc cs →
+  Wire.restore_bytes WireState.state_dec WireCommit.commit_dec
+    (fst (S2Frame.unframe body_dec (length (S2Frame.stream_enc chunks)) false (S2Frame.stream_enc chunks))) = Some (st, cs).
+Proof.
+  intros body_dec st cs chunks Hst Hcs Hok Hs Hp.
+  rewrite (S2Frame.unframe_full body_dec chunks Hok Hs). cbn [fst]. rewrite Hp.
+  by apply WireState.real_restore_full.
+Qed.
+Print Assumptions c07_file_round_trip.
